@@ -25,6 +25,10 @@ ACTIVE = [None, 1, 3, 5, 8, 0]
 INACTIVE = [None, 1, 2, 3, 0]
 
 
+class Stamp(datetime.datetime):
+    pass
+
+
 def sessions(items, active, inactive, closing, include, self_closed=None):
     """The statement, transcribed.  items: (ts, flag, ...).  self_closed (optional list) receives, per returned
     window, whether it was closed by its own last item (an included closing item)."""
@@ -81,6 +85,8 @@ def run_case(case):
         if case.get('tz') == 'mixed' and i[3] % 2:
             # the same instant expressed with another UTC offset (two sites, a DST change): aware datetimes compare as instants
             t = t.astimezone(datetime.timezone(datetime.timedelta(hours=5, minutes=30)))
+        if case.get('stamp'):
+            t = Stamp.combine(t.date(), t.timetz())        # an instance of a datetime SUBCLASS (pandas.Timestamp is one)
         return t
     def td(n):
         return None if n is None else datetime.timedelta(seconds=n * scale)
@@ -193,7 +199,7 @@ def case_gen(draw):
         't0': draw(st.integers(0, 3)),
         'deltas': draw(st.lists(st.integers(0, 7), min_size=n, max_size=n)),
         'flags': draw(st.lists(st.integers(0, 3).map(lambda x: int(x == 0)), min_size=n, max_size=n)),
-        'grouped': draw(st.sampled_from([False, True, True, 'split'])), 'scale': draw(st.sampled_from([1, 1, 3600, 43200, 86400, 0.2, 0.001])), 'cm': draw(st.sampled_from(['lambda', 'default_arg', 'partial', 'obj'])), 'tz': draw(st.sampled_from([False, True, 'mixed'])), 'post': draw(st.integers(0, 3)) == 0,
+        'grouped': draw(st.sampled_from([False, True, True, 'split'])), 'scale': draw(st.sampled_from([1, 1, 3600, 43200, 86400, 0.2, 0.001])), 'cm': draw(st.sampled_from(['lambda', 'default_arg', 'partial', 'obj'])), 'tz': draw(st.sampled_from([False, True, 'mixed'])), 'post': draw(st.integers(0, 3)) == 0, 'stamp': draw(st.integers(0, 3)) == 0,
     }
     case['gk'] = draw(st.lists(st.integers(0, 2), min_size=n, max_size=n)) if case['grouped'] else None
     return case
